@@ -612,6 +612,10 @@ func (env *Env) callExpr(n *ast.CallExpr) Val {
 				if isString(x.Ty) {
 					return Scalar{e.strlen(x.T), intT}
 				}
+				if _, isMap := x.Ty.Underlying().(*types.Map); isMap {
+					n := Select(e.mapLenGet(env.st, x.Ty), x.T)
+					return Scalar{Ite(Eq(x.T, IntLit(0)), e.ar.idxLit(0), n), intT}
+				}
 			case ArrayV:
 				return Scalar{e.ar.idxLit(x.Ty.Underlying().(*types.Array).Len()), intT}
 			case PtrV:
@@ -748,11 +752,12 @@ func (env *Env) callExpr(n *ast.CallExpr) Val {
 			a, b := env.eval(n.Args[0]).(SliceV), env.eval(n.Args[1]).(SliceV)
 			return Scalar{And(Eq(a.Rid, b.Rid), Eq(a.Off, b.Off), Eq(a.Len, b.Len), Eq(a.Cap, b.Cap)), boolT}
 		case "rid":
+			regT := types.Typ[types.UnsafePointer]
 			switch v := env.eval(n.Args[0]).(type) {
 			case SliceV:
-				return Scalar{v.Rid, intT}
+				return Scalar{v.Rid, regT}
 			case PtrV:
-				return Scalar{v.Rid, intT}
+				return Scalar{v.Rid, regT}
 			}
 			env.fail("rid() of non-reference")
 		case "off":
@@ -765,14 +770,18 @@ func (env *Env) callExpr(n *ast.CallExpr) Val {
 			env.fail("off() of non-reference")
 		case "fresh":
 			// fresh(x): region of x was allocated during this call
-			if e.entry == nil {
+			if env.old == nil {
 				env.fail("fresh() outside a function contract")
 			}
 			switch v := env.eval(n.Args[0]).(type) {
 			case SliceV:
-				return Scalar{app(SBool, ">=", v.Rid, e.entry.alloc), boolT}
+				return Scalar{app(SBool, ">=", v.Rid, env.old.alloc), boolT}
 			case PtrV:
-				return Scalar{app(SBool, ">=", v.Rid, e.entry.alloc), boolT}
+				return Scalar{app(SBool, ">=", v.Rid, env.old.alloc), boolT}
+			case Scalar:
+				if _, isMap := v.Ty.Underlying().(*types.Map); isMap {
+					return Scalar{app(SBool, ">=", v.T, env.old.alloc), boolT}
+				}
 			}
 			env.fail("fresh() of non-reference")
 		}
